@@ -69,8 +69,6 @@ def query_features(ir):
             inner = list(walk_conds(n["x"]))
             if any(m["c"] == "or" and or_is_union(ir, m) for m in inner):
                 f.add("not_over_union")
-            if any(m["c"] == "or" and any(_has_pred(x) for x in m["xs"]) for m in inner):
-                f.add("not_over_union")  # or_ with a predicate operand is built as a union even over one variable
             if any(m["c"] == "and" for m in inner):
                 f.add("not_over_and")
             if any(m["c"] in ("exists", "forall") for m in inner):
